@@ -123,6 +123,16 @@ CLAIMED = {
               "BGSAVE, and the real loader in-process on every prefix and on corrupted length fields with an allocation-tracking allocator."),
         note=TB + "File-system semantics (rename atomic, a failed write leaves a prefix) are assumptions of the Sys model; power-loss durability (fsync ordering) is outside; the switches exclusive/atomic/bounded are read from rdb.rs/server.rs by the translator.",
         ref="DESIGN.md section 5 C10"),
+    "C11": dict(
+        text=("Proof: replay_eq_live - for the logging rule regenerated from the current tree (write-command table, SELECT tracking in append_command_in_db, pops made for blocking clients logged as LPOP/RPOP, "
+              "SPOP / XADD * / EVALSHA logged by their effect) EVERY history of the model - all 16 databases, the direct, MULTI/EXEC, script and served-blocking-pop paths, refused commands included - leaves an "
+              "append-only file whose replay from empty yields the live dataset (excluding only a random draw made INSIDE a script: recorded finding); the file is exactly the RESP encoding of the log and parses "
+              "back to it (on C20's round trip); table theorems by decide: every command of the dispatch table that mutates is in the regenerated write table (no exception left), SELECT is tracked, blocking names "
+              "are logged by effect; witness lemmas that each former gap (GETSET/HMSET/PEXPIRE/XREADGROUP missing, no SELECT, unlogged wake pops, verbatim SPOP) broke replay - 40 Lean theorems; the real server runs "
+              "with --appendonly yes over TCP: after each history the file is parsed, compared with the model's log, replayed into a fresh server and both datasets dumped and compared (14k evaluations quick, 175k thorough), "
+              "binary arguments, 16 dbs, EXEC, scripts, blocking clients, server restart from the file."),
+        note=TB + "fsync policy, torn final entries after power loss and BGREWRITEAOF are outside the model (the rewrite is a stub in this tree); scripts are logged verbatim (a script that draws at random or reads the clock replays differently: open finding); expiry during replay uses the replay clock.",
+        ref="DESIGN.md section 5 C11"),
     "C12": dict(
         text=("Proof: the Lua<->RESP conversion of the prescribed variant is the standard Redis table and round-trips (all frames, all Lua values); KEYS/ARGV arrive bytewise; redis.call(cmd) = the "
               "directly issued command in effect for ALL commands, stores and databases and in reply on the transparent fragment (partial, with decidable fragment and witness lemmas for the four conversion "
